@@ -20,6 +20,80 @@ def hashy(s):
     return any(h in s for h in HASHY)
 
 
+def hash_order_audit(F, fn):
+    """-> ([(loop line, source, [(line, problem)])], [(line, consumer, full callee, ok)]) for one body"""
+    p = fn.path
+    pr = P.Prov(fn)
+    fls = L.for_loops(fn, pr)
+    loop_next_blocks = {lp.next_block for lp in fls}
+    loops_out, chains_out = [], []
+    for lp in fls:
+        full = fn.blocks[lp.next_block]["term"]["callee"].get("full", "") + " " + lp.next_path
+        src, chain = lp.chain()
+        local_hash_src = False
+        for c in chain:
+            g = F.fns.get(c)
+            if g is not None and hashy(g.local_ty(0)):
+                local_hash_src = True
+        if not (hashy(full) or any(hashy(c) for c in chain) or local_hash_src):
+            continue
+        problems = []
+        for b in sorted(lp.body):
+            for lab, tgt in fn.cfg.succ_edges[b]:
+                if tgt not in lp.body and not (b == fn.blocks[lp.next_block]["term"]["to"] and tgt == lp.exit_block):
+                    t2 = fn.blocks[tgt]["term"]
+                    if t2["k"] in ("unreachable",):
+                        continue
+                    problems.append((fn.blocks[b]["line"], "early exit from a hash-ordered loop (the first match depends on iteration order)"))
+        for b in sorted(lp.body):
+            t = fn.blocks[b]["term"]
+            if t["k"] != "call" or b in loop_next_blocks:
+                continue
+            nm = t["callee"].get("name")
+            cp = I.callee_path(t)
+            if cp.startswith("std::collections::HashMap") or cp.startswith("std::collections::HashSet") or \
+                    cp.startswith("std::collections::BTreeMap") or cp.startswith("std::collections::BTreeSet"):
+                if nm in ("insert", "remove", "get", "contains_key", "contains", "len", "entry", "get_mut", "clear"):
+                    continue
+            if nm in ORDER_SINKS and not (nm == "collect" and any(x in (t["callee"].get("full") or "") for x in UNORDERED_TARGETS)):
+                problems.append((fn.blocks[b]["line"], f"order-sensitive sink {cp} inside a hash-ordered loop"))
+                continue
+            if cp in F.fns:
+                g = F.fns[cp]
+                if any(g.local_ty(i).startswith("&mut") for i in range(1, g.arg_count + 1)):
+                    problems.append((fn.blocks[b]["line"], f"call of {cp} with a mutable argument inside a hash-ordered loop"))
+        for l, ds in pr.defs.items():
+            inside = [d for d in ds if d[0] in lp.body]
+            if inside and len(ds) > len(inside):
+                tt = pr.local(l)
+                commut = all(a[0] in ("int", "bool", "float") or (a[0] == "bin" and a[1] in ("Add", "Mul", "BitOr", "BitAnd", "BitXor") and a[2] == ("self", l))
+                             or a[0] in ("self",) for a in P.alts(tt))
+                item_dep = any(any(sub == lp.item_term or (sub[0] == "call" and sub[1] == lp.next_path) for sub in P.walk(a)) for a in P.alts(tt))
+                if item_dep and not commut and fn.local_name(l) is not None:
+                    problems.append((fn.line, f"variable `{fn.local_name(l)}` keeps a value that depends on which item came last/first"))
+        loops_out.append((lp.line, lp.next_path, problems))
+    for bi, t in fn.calls():
+        if bi not in fn.cfg.reachable or bi in loop_next_blocks:
+            continue
+        full = t["callee"].get("full") or ""
+        nm = t["callee"].get("name")
+        if not hashy(full) and not any(hashy(a) for a in (t["callee"].get("generic_args") or [])):
+            continue
+        if not (t["callee"].get("trait") or "").endswith("iter::Iterator") and nm not in ("collect", "extend", "from_iter"):
+            continue
+        if nm in ORDER_FREE_CONSUMERS:
+            chains_out.append((fn.blocks[bi]["line"], nm, full, True))
+            continue
+        if nm in ("collect", "from_iter", "extend") and any(x in full for x in UNORDERED_TARGETS):
+            chains_out.append((fn.blocks[bi]["line"], nm, full, True))
+            continue
+        if nm in ("map", "filter", "filter_map", "flat_map", "cloned", "copied", "enumerate", "zip", "chain", "inspect", "peekable",
+                  "into_iter", "iter", "by_ref", "skip", "take", "rev", "size_hint"):
+            continue
+        chains_out.append((fn.blocks[bi]["line"], nm, full, False))
+    return loops_out, chains_out
+
+
 def run(ctx):
     ctx.explanation = ("static: effect audit of every loop / iterator chain that consumes a hash-ordered iterator in the bodies "
                        "reachable from the Display impls: such iteration may only feed order-insensitive sinks and exit on "
@@ -39,93 +113,23 @@ def run(ctx):
     n_chains = 0
     for p in sorted(reach):
         fn = F.fns[p]
-        pr = P.Prov(fn)
-        fls = L.for_loops(fn, pr)
-        loop_next_blocks = {lp.next_block for lp in fls}
-        for lp in fls:
-            full = fn.blocks[lp.next_block]["term"]["callee"].get("full", "") + " " + lp.next_path
-            src, chain = lp.chain()
-            local_hash_src = False
-            for c in chain:
-                g = F.fns.get(c)
-                if g is not None and hashy(g.local_ty(0)):
-                    local_hash_src = True
-            if not (hashy(full) or any(hashy(c) for c in chain) or local_hash_src):
-                continue
-            n_hash_loops += 1
-            problems = []
-            # exits other than exhaustion
-            for b in sorted(lp.body):
-                for lab, tgt in fn.cfg.succ_edges[b]:
-                    if tgt not in lp.body and not (b == fn.blocks[lp.next_block]["term"]["to"] and tgt == lp.exit_block):
-                        # leaving the loop early: allowed only into a diverging block
-                        t2 = fn.blocks[tgt]["term"]
-                        if t2["k"] in ("unreachable",):
-                            continue
-                        problems.append((fn.blocks[b]["line"], "early exit from a hash-ordered loop (the first match depends on iteration order)"))
-            # sinks
-            for b in sorted(lp.body):
-                t = fn.blocks[b]["term"]
-                if t["k"] != "call" or b in loop_next_blocks:
-                    continue
-                nm = t["callee"].get("name")
-                cp = I.callee_path(t)
-                if cp.startswith("std::collections::HashMap") or cp.startswith("std::collections::HashSet") or \
-                        cp.startswith("std::collections::BTreeMap") or cp.startswith("std::collections::BTreeSet"):
-                    if nm in ("insert", "remove", "get", "contains_key", "contains", "len", "entry", "get_mut", "clear"):
-                        continue
-                if nm in ORDER_SINKS and not (nm == "collect" and any(x in (t["callee"].get("full") or "") for x in UNORDERED_TARGETS)):
-                    problems.append((fn.blocks[b]["line"], f"order-sensitive sink {cp} inside a hash-ordered loop"))
-                    continue
-                if cp in F.fns:
-                    g = F.fns[cp]
-                    if any(g.local_ty(i).startswith("&mut") for i in range(1, g.arg_count + 1)):
-                        problems.append((fn.blocks[b]["line"], f"call of {cp} with a mutable argument inside a hash-ordered loop"))
-            # stores to non-hash state inside the loop (e.g. `last = item`) that survive the loop
-            for l, ds in pr.defs.items():
-                inside = [d for d in ds if d[0] in lp.body]
-                outside_use = False
-                if inside and len(ds) > len(inside):
-                    # a variable assigned both outside and inside the loop: loop-carried or result variable
-                    ty = fn.local_ty(l)
-                    tt = pr.local(l)
-                    commut = all(a[0] in ("int", "bool", "float") or (a[0] == "bin" and a[1] in ("Add", "Mul", "BitOr", "BitAnd", "BitXor") and a[2] == ("self", l))
-                                 or a[0] in ("self",) for a in P.alts(tt))
-                    item_dep = any(any(sub == lp.item_term or (sub[0] == "call" and sub[1] == lp.next_path) for sub in P.walk(a)) for a in P.alts(tt))
-                    if item_dep and not commut and not ty.startswith("std::option::Option<(") and l != 0:
-                        pass
-                    if item_dep and not commut and not fn.local_name(l) is None:
-                        problems.append((fn.line, f"variable `{fn.local_name(l)}` keeps a value that depends on which item came last/first"))
+        loops_, chains_ = hash_order_audit(F, fn)
+        n_hash_loops += len(loops_)
+        n_chains += len(chains_)
+        for (lp_line, src, problems) in loops_:
             if problems:
                 line, what = problems[0]
                 ctx.violation(rule, f"{p}|hash-loop|{what.split(' ')[0]}-{what.split(' ')[1]}", f"{p}: {what}; the range text would depend on the map's "
                               f"iteration order (insertion history / capacity)", fn=p, file=fn.file, line=line,
                               construct="loop over a hash-ordered iterator")
             else:
-                ctx.ok(rule, {"fn": p, "loop_line": lp.line, "source": lp.next_path, "sinks": "order-insensitive"}, sample=True)
-        # adaptor chains consumed without a for loop
-        for bi, t in fn.calls():
-            if bi not in fn.cfg.reachable or bi in loop_next_blocks:
-                continue
-            full = t["callee"].get("full") or ""
-            nm = t["callee"].get("name")
-            if not hashy(full) and not any(hashy(a) for a in (t["callee"].get("generic_args") or [])):
-                continue
-            if not (t["callee"].get("trait") or "").endswith("iter::Iterator") and nm not in ("collect", "extend", "from_iter"):
-                continue
-            n_chains += 1
-            if nm in ORDER_FREE_CONSUMERS:
-                ctx.ok(rule, {"fn": p, "consumer": nm, "line": fn.blocks[bi]["line"]})
-                continue
-            if nm in ("collect", "from_iter", "extend") and any(x in full for x in UNORDERED_TARGETS):
-                ctx.ok(rule, {"fn": p, "consumer": f"{nm} into an unordered/sorted container", "line": fn.blocks[bi]["line"]})
-                continue
-            if nm in ("map", "filter", "filter_map", "flat_map", "cloned", "copied", "enumerate", "zip", "chain", "inspect", "peekable",
-                      "into_iter", "iter", "by_ref", "skip", "take", "rev", "size_hint"):
-                # adaptors: judged at their consumer
-                continue
-            ctx.violation(rule, f"{p}|hash-chain|{nm}", f"{p}: `{nm}` consumes a hash-ordered iterator ({full[:80]}): its result depends on "
-                          f"iteration order", fn=p, file=fn.file, line=fn.blocks[bi]["line"], construct=f"Iterator::{nm} over a hash iterator")
+                ctx.ok(rule, {"fn": p, "loop_line": lp_line, "source": src, "sinks": "order-insensitive"}, sample=True)
+        for (line, nm, full, okc) in chains_:
+            if okc:
+                ctx.ok(rule, {"fn": p, "consumer": nm, "line": line})
+            else:
+                ctx.violation(rule, f"{p}|hash-chain|{nm}", f"{p}: `{nm}` consumes a hash-ordered iterator ({full[:80]}): its result depends on "
+                              f"iteration order", fn=p, file=fn.file, line=line, construct=f"Iterator::{nm} over a hash iterator")
     ctx.extra["hash_ordered_loops"] = n_hash_loops
     ctx.extra["hash_iterator_calls"] = n_chains
     # liveness: the formatter does consult hash maps (so the rule is not vacuous) through keyed lookups
@@ -153,6 +157,11 @@ def run(ctx):
                                   fn=disp.path, file=disp.file, line=disp.blocks[bi]["line"])
     if not badp:
         ctx.ok(rule2, {"pushes": len(pushes), "enclosing_loops": "RankRange / SuitRange only"}, sample=True)
+    if ctx.tier == "thorough":
+        from sa import xref
+        from rules import selftest
+        xref.cross_check(ctx, F, ["iter_over_hash_type"])
+        selftest.run(ctx, ["hash-order"])
     # the final emission loop walks the token vector in order
     ctx.assume("Vec iteration, RankRange and SuitRange iterate in their fixed order (C13)")
     ctx.assume("maximal merging of runs is a behavioural statement about the run-length passes and is not decided")
